@@ -1,0 +1,90 @@
+// ------------------------------------------------------------------------
+// Gufo SNMP: verification hooks (compiled only with --cfg gufo_snmp_verif)
+// ------------------------------------------------------------------------
+// Read-only projections of internal state and re-exports of private
+// modules for the conformance harness. Nothing here changes behaviour.
+// ------------------------------------------------------------------------
+
+pub use crate::privacy::{PrivKey, SnmpPriv};
+use crate::snmp::getresponse::SnmpGetResponse;
+use crate::snmp::pdu::SnmpPdu;
+use crate::snmp::value::SnmpValue;
+
+fn hex(b: &[u8]) -> String {
+    b.iter().map(|x| format!("{:02x}", x)).collect()
+}
+
+/// Canonical textual projection of a decoded value: "<kind>:<payload>"
+pub fn value_repr(v: &SnmpValue) -> String {
+    match v {
+        SnmpValue::Bool(x) => format!("bool:{}", x.verif_value()),
+        SnmpValue::Int(x) => format!("int:{}", x.verif_value()),
+        SnmpValue::Null => "null".to_string(),
+        SnmpValue::OctetString(x) => format!("octets:{}", hex(x.0)),
+        SnmpValue::Oid(x) => format!("oid:{}", hex(&x.0)),
+        SnmpValue::ObjectDescriptor(x) => format!("objdesc:{}", hex(x.0)),
+        SnmpValue::Real(x) => format!("real:{:016x}", x.verif_value().to_bits()),
+        SnmpValue::IpAddress(x) => format!("ip:{}", String::from(x)),
+        SnmpValue::Counter32(x) => format!("c32:{}", x.0),
+        SnmpValue::Gauge32(x) => format!("g32:{}", x.0),
+        SnmpValue::TimeTicks(x) => format!("tt:{}", x.0),
+        SnmpValue::Opaque(x) => format!("opaque:{}", hex(x.0)),
+        SnmpValue::Counter64(x) => format!("c64:{}", x.0),
+        SnmpValue::UInteger32(x) => format!("u32:{}", x.0),
+        SnmpValue::NoSuchObject => "nosuchobject".to_string(),
+        SnmpValue::NoSuchInstance => "nosuchinstance".to_string(),
+        SnmpValue::EndOfMibView => "endofmibview".to_string(),
+    }
+}
+
+/// Projection of a response: request id, error status/index, (oid hex, value repr) list
+pub fn response_repr(r: &SnmpGetResponse) -> String {
+    let vars: Vec<String> = r
+        .vars
+        .iter()
+        .map(|v| format!("{}={}", hex(&v.oid.0), value_repr(&v.value)))
+        .collect();
+    format!(
+        "resp id={} es={} ei={} [{}]",
+        r.request_id,
+        r.error_status,
+        r.error_index,
+        vars.join(",")
+    )
+}
+
+/// Projection of any PDU
+pub fn pdu_repr(p: &SnmpPdu) -> String {
+    match p {
+        SnmpPdu::GetRequest(g) => format!(
+            "get id={} [{}]",
+            g.request_id,
+            g.vars.iter().map(|o| hex(&o.0)).collect::<Vec<_>>().join(",")
+        ),
+        SnmpPdu::GetNextRequest(g) => format!(
+            "getnext id={} [{}]",
+            g.request_id,
+            g.vars.iter().map(|o| hex(&o.0)).collect::<Vec<_>>().join(",")
+        ),
+        SnmpPdu::GetBulkRequest(g) => format!(
+            "getbulk id={} nr={} mr={} [{}]",
+            g.request_id,
+            g.non_repeaters,
+            g.max_repetitions,
+            g.vars.iter().map(|o| hex(&o.0)).collect::<Vec<_>>().join(",")
+        ),
+        SnmpPdu::GetResponse(r) => response_repr(r),
+        SnmpPdu::Report(r) => format!("report {}", hex(r.0)),
+    }
+}
+
+/// Raw contents accessors for crate-private fields
+pub fn oid_bytes(o: &crate::ber::SnmpOid) -> Vec<u8> {
+    o.0.to_vec()
+}
+pub fn octets_bytes(o: &crate::ber::SnmpOctetString) -> Vec<u8> {
+    o.0.to_vec()
+}
+pub fn seq_bytes(o: &crate::ber::SnmpSequence) -> Vec<u8> {
+    o.0.to_vec()
+}
